@@ -151,7 +151,7 @@ func (failsafeEngine) Info(prop, tier string) runner.Info {
 		Rule: "four workloads. (1) W+: each of 22 hostile feature kinds (anonymous pointers into operations / nested inline schemas / missing positions, pointers inside pointer targets, cyclic pointer chains, back-references from auxiliary documents, colliding imports containing $refs, dangling local/remote refs, " +
 			"containers recursive only through items/additionalProperties, whole-document schemas, $refs to non-schemas, $ref siblings, absolute self refs, simple-items $refs, deep nesting ...) systematically and in seeded random compositions with W features; (2) structure-aware mutation of W bundles " +
 			"(retarget a $ref to a random pointer of a random file, delete a target, swap object/array, truncate or replace an auxiliary file, drop a key, non-URI $ref strings); (3) W bundles and repository fixtures; all run through Flatten under every option set, analysis.New, and Schema() on every schema position, " +
-			"under recover(), hook budgets H1/H3 and process-level fatal/hang attribution. (4) fault enumeration: for every multi-file W bundle and applicable option set, the fault-free run's n document loads are counted through the spec.PathLoader seam and the run is repeated failing exactly the k-th load, for every k in 1..n; Flatten must then return an error. " +
+			"under recover(), hook budgets H1/H3 and process-level fatal/hang attribution. (4) fault enumeration: for every multi-file W bundle and applicable option set, the fault-free run's n document loads are counted through the spec.PathLoader seam and the run is repeated failing exactly the k-th load, for every k in 1..n, once with an I/O error and once delivering a truncated document; Flatten must then return an error. " +
 			"Planted unresolvable refs (missing remote file/fragment, missing local pointer, cyclic pointer chain) reachable from an operation must yield an error. non-trivial = a W+/mutated case in which Flatten returned an error or a fault case with n >= 1; distinct = SHA-256 of the bundle.",
 		Assumptions: []string{"spec.PathLoader is the only way the library reaches other documents (in-memory loader with the default loader's path strategy)", "transient fault model: only the k-th load of a run fails",
 			"hooks H1/H3 give logical budgets; elsewhere the CPU-time watchdog and fatal-error attribution of the runner decide", "spec object model defines 'loadable'"},
@@ -240,22 +240,28 @@ func (e failsafeEngine) Check(prop, tier string, c *runner.Case) *runner.Result 
 			res.Ev("fault_free_runs", 1)
 			res.Ev("loads_counted", n)
 			for k := 1; k <= n; k++ {
-				run := runFlatten(files, root, os_, k, nodes)
-				res.Evals++
-				res.Ev("faults_injected", 1)
-				if crash("Flatten", run, o) {
-					continue
-				}
-				switch {
-				case !run.Faulted:
-					res.Ev("fault_not_reached", 1)
-				case run.Err != nil:
-					res.Ev("faults_reported_as_error", 1)
-				case string(run.Bytes) == string(base.Bytes):
-					res.Ev("masked_fault", 1)
-					res.Set("masked_faults", fmt.Sprintf("%s k=%d/%d %s", o, k, n, base.Loads[k-1]))
-				default:
-					res.Violate("load-fault-swallowed", "load-fault-swallowed:"+modeOf(os_), o, fmt.Sprintf("load %d of %d (%s) failed but Flatten returned nil with a different document", k, n, base.Loads[k-1]))
+				for _, garbage := range []bool{false, true} {
+					run := runFlattenFault(files, root, os_, k, garbage, nodes)
+					res.Evals++
+					kind := "io-error"
+					if garbage {
+						kind = "truncated-document"
+					}
+					res.Ev("faults_injected:"+kind, 1)
+					if crash("Flatten", run, o) {
+						continue
+					}
+					switch {
+					case !run.Faulted:
+						res.Ev("fault_not_reached", 1)
+					case run.Err != nil:
+						res.Ev("faults_reported_as_error", 1)
+					case string(run.Bytes) == string(base.Bytes):
+						res.Ev("masked_fault", 1)
+						res.Set("masked_faults", fmt.Sprintf("%s k=%d/%d %s %s", o, k, n, base.Loads[k-1], kind))
+					default:
+						res.Violate("load-fault-swallowed", "load-fault-swallowed:"+kind+":"+modeOf(os_), o, fmt.Sprintf("load %d of %d (%s) failed (%s) but Flatten returned nil with a different document", k, n, base.Loads[k-1], kind))
+					}
 				}
 			}
 			if n > 0 {
